@@ -142,3 +142,19 @@ Example C06_nonvacuous_unpack_nested :
             jvalid pm_any [] 50 s (JArr [JInt 1; JStr "a"; JFlt "2.5"; JFlt "0.5"; JBool true]) = true /\
             jvalid pm_any [] 50 s (JArr [JInt 1; JBool true]) = false.
 Proof. exact nonvacuous_unpack_nested. Qed.
+
+(* overridden serialization (field option serialize=<function>, Config / dialect serialization_strategy): the schema
+   describes the function's return annotation; sound for non-nullable fields, refuted for nullable ones (None is not
+   passed to the function) *)
+Theorem C06_overridden_nullable_refuted :
+  enc_ok 5 E_ovn false false (TData "A") (VObj [("x", VNone)]) (JObj [("x", JNull)]) = true /\
+  exists s, schema_f E_ovn dl2020 false false 5 (TData "A") = Some s /\ jvalid pm_any [] 50 s (JObj [("x", JNull)]) = false.
+Proof. exact overridden_nullable_refuted. Qed.
+Example C06_nonvacuous_override :
+  env_ok E_ov = true /\ ty_ok 9 E_ov false false (TData "S") = true /\
+  enc_ok 9 E_ov false false (TData "S") (VObj [("l", VStr "1,2"); ("d", VInt 7); ("p", VBool true)])
+         (JObj [("l", JStr "1,2"); ("d", JInt 7); ("p", JBool true)]) = true /\
+  exists s, schema_f E_ov dl2020 false false 9 (TData "S") = Some s /\
+            jvalid pm_any [] 50 s (JObj [("l", JStr "1,2"); ("d", JInt 7); ("p", JBool true)]) = true /\
+            jvalid pm_any [] 50 s (JObj [("l", JArr [JInt 1; JInt 2]); ("d", JInt 7); ("p", JBool true)]) = false.
+Proof. exact nonvacuous_override. Qed.
